@@ -22,7 +22,7 @@ use camino::Utf8Path;
 use klukai_types::{
     actor::{Actor, ActorId},
     agent::{Agent, Bookie, SplitPool},
-    base::CrsqlSeq,
+    base::{CrsqlDbVersion, CrsqlSeq},
     broadcast::{BroadcastInput, BroadcastV1, ChangeSource, ChangeV1, FocaInput},
     channel::CorroReceiver,
     members::MemberAddedResult,
@@ -626,12 +626,11 @@ pub async fn handle_changes(
             klukai_types::verif::emit("ingest_spawn", serde_json::json!({"node": agent.actor_id(), "site": "loop", "changes": changes.iter().map(|(c, _, _)| verif_change_json(c)).collect::<Vec<_>>(), "inflight": join_set.len() + 1}));
             let agent = agent.clone();
             let bookie = bookie.clone();
-            join_set.spawn(process_multiple_changes(
-                agent,
-                bookie,
-                changes.clone(),
-                tx_timeout,
-            ));
+            join_set.spawn(async move {
+                let res =
+                    process_multiple_changes(agent, bookie, changes.clone(), tx_timeout).await;
+                (changes, res)
+            });
             counter!("corro.agent.changes.batch.spawned").increment(1);
 
             buf_cost -= tmp_cost;
@@ -645,9 +644,32 @@ pub async fn handle_changes(
             res = join_set.join_next(), if !join_set.is_empty() => {
                 debug!("processed multiple changes concurrently");
                 #[cfg(feature = "verif")]
-                klukai_types::verif::emit("ingest_done", serde_json::json!({"node": agent.actor_id(), "ok": matches!(res, Some(Ok(Ok(())))), "inflight": join_set.len()}));
-                if let Some(Ok(Err(e))) = res {
-                    error!("could not process multiple changes: {e}");
+                klukai_types::verif::emit("ingest_done", serde_json::json!({"node": agent.actor_id(), "ok": matches!(res, Some(Ok((_, Ok(()))))), "inflight": join_set.len()}));
+                if let Some(Ok((changes, res))) = res {
+                    if let Err(e) = res {
+                        error!("could not process multiple changes: {e}");
+                    }
+                    // a changeset the batch did not book (failed apply, rolled back transaction) must not
+                    // stay marked as seen, or every later offer of it would be suppressed
+                    for (change, _, _) in changes {
+                        let booked = {
+                            bookie
+                                .read("handle_change(processed get)", change.actor_id.as_simple())
+                                .await
+                                .get(&change.actor_id)
+                                .cloned()
+                        };
+                        let held = match booked {
+                            Some(booked) => booked
+                                .read("handle_change(processed contains?)", change.actor_id.as_simple())
+                                .await
+                                .contains_all(change.versions(), change.seqs()),
+                            None => false,
+                        };
+                        if !held {
+                            forget_seen(&mut seen, &change);
+                        }
+                    }
                 }
                 continue;
             },
@@ -673,7 +695,10 @@ pub async fn handle_changes(
                     klukai_types::verif::emit("ingest_spawn", serde_json::json!({"node": agent.actor_id(), "site": "tick", "changes": changes.iter().map(|(c, _, _)| verif_change_json(c)).collect::<Vec<_>>(), "inflight": join_set.len() + 1}));
                     let agent = agent.clone();
                     let bookie = bookie.clone();
-                    join_set.spawn(process_multiple_changes(agent, bookie, changes.clone(), tx_timeout));
+                    join_set.spawn(async move {
+                        let res = process_multiple_changes(agent, bookie, changes.clone(), tx_timeout).await;
+                        (changes, res)
+                    });
                     counter!("corro.agent.changes.batch.spawned").increment(1);
                     buf_cost = 0;
                 }
@@ -771,15 +796,7 @@ pub async fn handle_changes(
                 {
                     verif_dropped = verif_change_json(&dropped_change);
                 }
-                for v in dropped_change.versions() {
-                    if let Entry::Occupied(mut entry) = seen.entry((dropped_change.actor_id, v)) {
-                        if let Some(seqs) = dropped_change.seqs().cloned() {
-                            entry.get_mut().remove(seqs);
-                        } else {
-                            entry.swap_remove_entry();
-                        }
-                    };
-                }
+                forget_seen(&mut seen, &dropped_change);
 
                 #[cfg(feature = "verif")]
                 {
@@ -847,6 +864,22 @@ pub async fn handle_changes(
         queue.push_back((change, src, Instant::now()));
 
         buf_cost += cost; // tracks the cost, not number of changes
+    }
+}
+
+/// Remove a changeset from the duplicate-suppression cache of `handle_changes`
+fn forget_seen(
+    seen: &mut IndexMap<(ActorId, CrsqlDbVersion), RangeInclusiveSet<CrsqlSeq>>,
+    change: &ChangeV1,
+) {
+    for v in change.versions() {
+        if let Entry::Occupied(mut entry) = seen.entry((change.actor_id, v)) {
+            if let Some(seqs) = change.seqs().cloned() {
+                entry.get_mut().remove(seqs);
+            } else {
+                entry.swap_remove_entry();
+            }
+        };
     }
 }
 
